@@ -270,6 +270,11 @@ def evaluate_kani(kb, sel, res, rep, pid, log, root):
         mine = [c for c in u.clauses if pid in kani_engine.clause_props(u, c)]
         okst = "bounded-ok" if u.bounded else "discharged"
         for c in mine:
+            t = kb.clause_text.get(n, {}).get(c)
+            if not t and c.startswith("reg."):
+                t = f"vm.arch.{c[4:]} == exp.{c[4:]}   (exp = the register file before the call, updated exactly as the production's contract says; every other register must be unchanged)"
+            if t:
+                ctext[f"{n}/{c}"] = t
             rep.add(n, c, "kani", backend, "refuted" if c in failed else okst, r.time_s, u.target, u.klass)
         tot_fail = [c for c in failed if c not in u.clauses]
         if pid in kani_engine.clause_props(u, "total"):
@@ -290,7 +295,7 @@ def evaluate_kani(kb, sel, res, rep, pid, log, root):
                 rep.violations.append({"obligation": obl, "path": path["path"], "confirmed": path.get("confirmed")})
     if kb.fallback:
         rep.notes.append("z3 timed out after 240 s on " + ", ".join(kb.fallback) + "; decided by CaDiCaL with --arrays-uf-always instead")
-    rep.extra["clause_text"] = ctext
+    rep.extra.setdefault("clause_text", {}).update(ctext)
     rep.extra["annotation_diff_sha256"] = hashlib.sha256(kb.diff.encode()).hexdigest()
     rep.extra["annotation_diff_added_lines"] = sum(1 for l in kb.diff.split("\n") if l.startswith("+") and not l.startswith("+++"))
 
